@@ -49,7 +49,11 @@ def make(pid, macro, profile, idx, seed, faults=True, fail=False):
     L.append(pp.decls())
     if is_async:
         L.append("let mut fut = %s;" % text)
-        L.append("let (r, polls, lost) = drive(&mut fut, %d);" % pp.max_polls())
+        # every handle of a step is polled in the poll that spawns its task (and in every later one): once a spawned task has panicked the very
+        # next poll of the macro's future panics - it never answers Pending (the caller would be left waiting for an unrelated sibling)
+        L.append("let mut r = None; let mut polls = 0usize;")
+        L.append("while polls < %d { polls += 1; clear_woken(); match poll_once(&mut fut) { Poll::Ready(v) => { r = Some(v); break; } Poll::Pending => { vassert!(%s == 0, %s); } } }"
+                 % (pp.max_polls(), injected, msg("a poll of the macro's future answered Pending although a spawned task had already panicked: the panic is held back behind a pending sibling")))
         L.append("vassert!(%s == 0, %s);" % (injected, msg("the future completed (or is still pending) although a task failed: the failure did not reach the caller")))
         L.append("vassert!(r == Some(%s), %s);" % (pp.expected_success(), msg("without a fault the macro completes with its value")))
     else:
